@@ -35,33 +35,59 @@ if log:
 sys.exit(int(sys.argv[1]) if len(sys.argv) > 1 else 0)
 """
 
-# writer.py total chunk delay_ms rc mode : writes a self-describing payload to stdout
+# writer PAYLOADFILE chunk delay rc [linger] [limit]: writes the payload to stdout in `chunk`-byte os.write calls
+# `delay` seconds apart, then (optionally) closes stdout and lingers before exiting with rc
 _WRITER = """#!{py} -S
 import sys, os, time
 spec = sys.argv[1]
 chunk = int(sys.argv[2]); delay = float(sys.argv[3]); rc = int(sys.argv[4])
+linger = float(sys.argv[5]) if len(sys.argv) > 5 else 0.0
 data = open(spec, 'rb').read()
-fd = 1
-i = 0
-while i < len(data):
-    n = os.write(fd, data[i:i + chunk])
-    i += n
-    if delay:
-        time.sleep(delay)
 err = os.environ.get("VERIF_WRITER_STDERR")
 if err:
     os.write(2, err.encode())
+i = 0
+try:
+    while i < len(data):
+        n = os.write(1, data[i:i + chunk])
+        i += n
+        if delay:
+            time.sleep(delay)
+except BrokenPipeError:
+    os._exit(141)
+if linger:
+    os.close(1)
+    time.sleep(linger)
 os._exit(rc)
 """
 
-# tagger.py TAG [in] : "O<TAG>[<stdin>]" to stdout, "E<TAG>" to stderr
+# catrc RC [delay]: copies stdin to stdout (64 KiB reads), exits RC
+_CATRC = """#!{py} -S
+import sys, os, time
+rc = int(sys.argv[1]) if len(sys.argv) > 1 else 0
+delay = float(sys.argv[2]) if len(sys.argv) > 2 else 0.0
+while True:
+    b = os.read(0, 65536)
+    if not b:
+        break
+    i = 0
+    while i < len(b):
+        i += os.write(1, b[i:])
+    if delay:
+        time.sleep(delay)
+os._exit(rc)
+"""
+
+# tagger TAG [in] [rc] : "<OTAG>" (+ "<ITAG>stdin</ITAG>") to stdout, "<ETAG>" to stderr
 _TAGGER = """#!{py} -S
 import sys
 tag = sys.argv[1]
-data = sys.stdin.read() if len(sys.argv) > 2 and sys.argv[2] == "in" else ""
+o = "<O%s>\\n" % tag
+if len(sys.argv) > 2 and sys.argv[2] == "in":
+    o += "<I%s>%s</I%s>\\n" % (tag, sys.stdin.read(), tag)
 rc = int(sys.argv[3]) if len(sys.argv) > 3 else 0
-sys.stdout.write("O%s[%s]\\n" % (tag, data)); sys.stdout.flush()
-sys.stderr.write("E%s\\n" % tag); sys.stderr.flush()
+sys.stdout.write(o); sys.stdout.flush()
+sys.stderr.write("<E%s>\\n" % tag); sys.stderr.flush()
 sys.exit(rc)
 """
 
@@ -69,7 +95,7 @@ sys.exit(rc)
 def make_sandbox_path(root, extra_links=()):
     d = os.path.join(root, f"sbin-{os.getpid()}")
     os.makedirs(d, exist_ok=True)
-    for name, body in (("argv_dump", _ARGV_DUMP), ("exitn", _EXITN), ("writer", _WRITER), ("tagger", _TAGGER)):
+    for name, body in (("argv_dump", _ARGV_DUMP), ("exitn", _EXITN), ("writer", _WRITER), ("tagger", _TAGGER), ("catrc", _CATRC)):
         p = os.path.join(d, name)
         with open(p, "w") as f:
             f.write(body.format(py=PY))
@@ -165,17 +191,64 @@ class Recorder:
         return f
 
 
+_STUCK = set()
+
+
 def settle(timeout=3.0):
-    """Wait until no xonsh helper thread (proxy / popen / closer) of a finished command is alive."""
+    """Wait until no xonsh helper thread (proxy / popen / closer) of a finished command is alive.  A thread that
+    outlives one full timeout is remembered and ignored from then on, so one stuck helper (a C06/C09 finding) does
+    not add the timeout to every later case."""
     import time
 
     end = time.time() + timeout
-    while time.time() < end:
-        alive = [t for t in threading.enumerate() if t is not threading.main_thread() and t.is_alive() and not t.name.startswith(("verif", "pydevd"))]
+    while True:
+        alive = [t for t in threading.enumerate() if t is not threading.main_thread() and t.is_alive() and t.ident not in _STUCK and not t.name.startswith(("verif", "pydevd"))]
         if not alive:
             return True
+        if time.time() >= end:
+            _STUCK.update(t.ident for t in alive)
+            return False
         time.sleep(0.01)
-    return False
+
+
+_ORIG_STD = {}
+
+
+def repair_std():
+    """xonsh can leave sys.std* closed or replaced by its thread dispatcher (races between alias stages, C09's
+    subject): put the interpreter's own streams back so that one damaged case is not charged to the next ones.
+    Returns what had to be repaired."""
+    out = []
+    for n, fd, mode in (("stdout", 1, "w"), ("stderr", 2, "w"), ("stdin", 0, "r")):
+        orig = _ORIG_STD.setdefault(n, getattr(sys, "__" + n + "__"))
+        cur = getattr(sys, n)
+        if getattr(orig, "closed", False):
+            orig = _ORIG_STD[n] = open(fd, mode, closefd=False)
+            setattr(sys, "__" + n + "__", orig)
+            out.append(n + "-closed")
+        if cur is not orig:
+            setattr(sys, n, orig)
+            if n + "-closed" not in out:
+                out.append(n + "-replaced")
+    return out
+
+
+def reset_jobs():
+    """Isolation between cases: drop whatever the previous command left in the main thread's job table
+    (a job whose proxy never got a return code makes every later wait_for_active_job spin - C09's subject).
+    Returns the number of entries that were still unfinished."""
+    from xonsh.procs import jobs
+
+    stale = 0
+    for j in list(jobs.get_jobs().values()):
+        try:
+            if j.get("obj") is not None and j["obj"].poll() is None:
+                stale += 1
+        except Exception:
+            stale += 1
+    jobs.get_jobs().clear()
+    jobs.get_tasks().clear()
+    return stale
 
 
 def read_argv_dump(path):
